@@ -2,7 +2,10 @@
    src/commands/check/check_baseline_ops.rs (definitions only).
 
    The evaluated set is explicit: [evaluated] is the list of keys the run looked at: the paths of
-   all results of the run, whatever their status, plus the directories of dir_stats when the
+   the CONTENT results of the run (the files whose lines were counted), whatever their status --
+   a structure result at the path of a file (missing sibling, naming, allow/deny lists) does not
+   count: under --diff/--staged or after a fail-fast short-circuit such a file was not
+   content-checked (repair of D85, fixes/D85-*.patch) -- plus the directories of dir_stats when the
    structure block of runner.rs ran, plus - for a run that scanned directories - the baseline
    keys whose path no longer exists (EvaluatedPaths::covers; the existence test is an oracle
    column supplied with the directories). handle_baseline_ratchet keeps only the stale paths
@@ -62,7 +65,10 @@ Definition handle_baseline_ratchet (cli cfg : option rmode) (results : list resu
     end
   end.
 
-(* the evaluated set of a run: result paths, then [dirs] = the directories the structure block
+(* the evaluated set of a run: paths of the content results (runner.rs filters with
+   is_structure_violation_result), then [dirs] = the directories the structure block
    counted plus (directory-scan runs) the baseline keys whose path no longer exists *)
+Definition content_results (results : list result) : list result :=
+  filter (fun r => negb (is_structure r)) results.
 Definition evaluated_of (results : list result) (dirs : list key) : list key :=
-  map key_of results ++ dirs.
+  map key_of (content_results results) ++ dirs.
